@@ -197,7 +197,10 @@ def _zone_spec(draw):
                               'min_vol': 0.0, 'vol_curve': None})
         low = 'T1'
     spec['pipes'].append(pipe('L2', 'J2', low, wide if tight_up else tight))
-    a, b = ('J1', 'J2') if draw(st.integers(0, 5)) else ('J2', 'J1')
+    # an ACTIVE PRV/PSV installed against the pressure gradient does not converge in WNTR: only the other
+    # valves are also placed against the flow
+    flip = draw(st.integers(0, 5)) == 0 and (stt == 'OPEN' or vt in ('FCV', 'TCV'))
+    a, b = ('J2', 'J1') if flip else ('J1', 'J2')
     spec['valves'].append({'name': 'V3', 'a': a, 'b': b, 'type': vt, 'diam': draw(st.sampled_from([0.1, 0.2, 0.3])),
                            'minor': draw(st.sampled_from([0.0, 1.0, 5.0])), 'setting': setting, 'status': stt})
     return spec
